@@ -52,4 +52,83 @@ theorem C13_merge_collision_witness :
     (Loader.vectorMerges ["density", "velocity_x", "velocity_y", "velocity_z", "velocity"] 3).1 =
       [("velocity", ["velocity_x", "velocity_y", "velocity_z"])] := by decide
 
+/-! ### vector assembly (`make_vector_arrays`): only existing variables are merged, and exactly the merged ones are deleted -/
+
+theorem mem_keep_or_append (c : String) (present : List String) (hp : c ∈ present) (b : Bool) (r : String) :
+    c ∈ (if b then present else present ++ [r]) := by
+  cases b <;> simp [hp]
+
+/-- invariant of the two nested loops of `vectorMerges`: every merge made so far takes `ncomp` component names that are
+    all present, the deletion list is the concatenation of the merged component lists, and nothing present is forgotten -/
+def MergeInv (ncomp : Nat) (keys : List String) (acc : (List (String × List String) × List String) × List String) : Prop :=
+  (∀ m ∈ acc.1.1, m.2.length = ncomp ∧ ∀ c ∈ m.2, c ∈ acc.2) ∧
+  acc.1.2 = acc.1.1.flatMap (·.2) ∧
+  (∀ k ∈ keys, k ∈ acc.2)
+
+theorem vectorMerges_sound (keys : List String) (ndim : Nat) :
+    let r := Loader.vectorMerges keys ndim
+    (∀ m ∈ r.1, m.2.length = min ndim 3) ∧ r.2 = r.1.flatMap (·.2) := by
+  unfold Loader.vectorMerges
+  simp only
+  split
+  · simp
+  · rename_i hlen
+    -- generic statement about the fold, for any starting state satisfying the invariant
+    have hcomps : (['x', 'y', 'z'].take ndim).length = min ndim 3 := by simp
+    have key : ∀ (ks : List String) (acc : (List (String × List String) × List String) × List String),
+        MergeInv (min ndim 3) keys acc →
+        MergeInv (min ndim 3) keys (ks.foldl (fun acc key =>
+          let cs := key.toList
+          let inds := (List.range cs.length).filter fun i => cs.getD i ' ' == 'x'
+          inds.foldl (fun (acc : (List (String × List String) × List String) × List String) ind =>
+            let ((merges, del), present) := acc
+            let compList := (['x', 'y', 'z'].take ndim).map fun c => String.ofList (Loader.replaceAt cs ind c)
+            if compList.all (present.contains ·) then
+              let prev : Char := if ind == 0 then cs.getLastD ' ' else cs.getD (ind - 1) ' '
+              let cut := if prev == '_' then ind - 1 else ind
+              let raw := String.ofList (cs.take cut ++ cs.drop (ind + 1))
+              let raw := if raw.isEmpty then "position" else raw
+              ((merges ++ [(raw, compList)], del ++ compList), if present.contains raw then present else present ++ [raw])
+            else acc) acc) acc) := by
+      intro ks
+      induction ks with
+      | nil => intro acc h; exact h
+      | cons k ks ih =>
+        intro acc h
+        simp only [List.foldl_cons]
+        apply ih
+        -- inner loop
+        generalize ((List.range k.toList.length).filter fun i => k.toList.getD i ' ' == 'x') = inds
+        induction inds generalizing acc with
+        | nil => exact h
+        | cons ind inds ihi =>
+          simp only [List.foldl_cons]
+          apply ihi
+          obtain ⟨⟨merges, del⟩, present⟩ := acc
+          obtain ⟨h1, h2, h3⟩ := h
+          simp only at h1 h2 h3 ⊢
+          split
+          · rename_i hall
+            refine ⟨?_, ?_, ?_⟩
+            · intro m hm
+              simp only [List.mem_append, List.mem_singleton] at hm
+              rcases hm with hm | hm
+              · obtain ⟨ha, hb⟩ := h1 m hm
+                refine ⟨ha, fun c hc => ?_⟩
+                exact mem_keep_or_append c present (hb c hc) _ _
+              · subst hm
+                refine ⟨by simp, fun c hc => ?_⟩
+                have hp : c ∈ present := by
+                  have := List.all_eq_true.mp hall c hc
+                  simpa using this
+                exact mem_keep_or_append c present hp _ _
+            · simp only [h2, List.flatMap_append, List.flatMap_cons, List.flatMap_nil, List.append_nil]
+            · intro k' hk'
+              exact mem_keep_or_append k' present (h3 k' hk') _ _
+          · exact ⟨h1, h2, h3⟩
+    have h0 : MergeInv (min ndim 3) keys ((([] : List (String × List String)), ([] : List String)), keys) :=
+      ⟨by simp, by simp, fun k hk => hk⟩
+    obtain ⟨a, b, _⟩ := key keys _ h0
+    exact ⟨fun m hm => (a m hm).1, b⟩
+
 end Osyris.C13
